@@ -164,7 +164,7 @@ def run_case(sh, i, plan):
                 base = outcome(T, m)
                 texts = []
                 try:
-                    jt = json.dumps(m)
+                    jt = json.dumps(m, allow_nan=False)  # a wire holding inf/nan (lenient union member) has no JSON text
                     strings.append(jt)
                     if facts["str_keyed"] and spec.peel().kind in ("coll", "fixed", "mapping", "struct"):
                         texts.append(("json.dumps", jt))
